@@ -109,6 +109,55 @@ func TestVersionGating(t *testing.T) {
 	}
 }
 
+// php7OnlyFeatures: generator features that PHP 5.6's grammar does not have (a program that uses one
+// is not a PHP 5 program). Lexical novelties the shared lexer cannot gate (numeric separators) and
+// the regroupings of the uniform-variable-syntax RFC are deliberately not in the list.
+var php7OnlyFeatures = []string{"op:??", "op:<=>", "op:??=", "arrow-function", "yield-from", "nullable-type", "group-use", "anonymous-class", "return-type",
+	"typed-property", "const-visibility", "multi-catch", "list-short", "list-keyed", "array-spread", "trailing-comma", "semi-reserved-member"}
+
+// TestGeneratedVersionGating: the negative direction of the version clause on generated programs —
+// a program of the PHP 7 family that uses at least one PHP 7-only construct, wherever it is nested,
+// must be reported under every 5.x version (and is accepted under its own, which TestGenerated checks).
+func TestGeneratedVersionGating(t *testing.T) {
+	harness.Check(t, "generated-gating", 12000, 400000, func(rt *rapid.T) {
+		// PHP 7 family without the >= 7.3 heredoc terminators: under an older version a flexibly
+		// terminated heredoc simply runs on, and what follows (PHP 7 syntax included) is body text
+		g := phpgen.New(rt, optsFor(px.V72))
+		root := g.Program(1, 3)
+		var used []string
+		for _, f := range php7OnlyFeatures {
+			if g.Feat[f] > 0 {
+				used = append(used, f)
+			}
+		}
+		if len(used) == 0 {
+			harness.Class("gating:no-php7-only-construct-drawn")
+			return
+		}
+		lay := g.Render(root, phpgen.Policy{Kind: phpgen.PolicySpace})
+		if !lay.LegacyHeredocOK {
+			return
+		}
+		src := append([]byte{}, lay.Src...)
+		if r := px.Parse(append([]byte{}, src...), px.V72, true); r.Panic != "" || len(r.Errs) > 0 {
+			return // TestGenerated's business
+		}
+		v := rapid.SampledFrom([]px.Ver{{Major: 5, Minor: 0}, {Major: 5, Minor: 3}, {Major: 5, Minor: 4}, {Major: 5, Minor: 5}, px.V56}).Draw(rt, "php5version")
+		r := px.Parse(src, v, true)
+		harness.Eval()
+		if r.Panic != "" {
+			return
+		}
+		if len(r.Errs) == 0 {
+			harness.Fail(rt, "php7-only-accepted-under-5", src, meta(v), "[%s] a program that uses PHP 7-only syntax (%s) is accepted without any error under a PHP 5 version\nsource: %q", v, strings.Join(used, ", "), src)
+		}
+		for _, f := range used {
+			harness.Class("gating:generated:" + f)
+		}
+		harness.NonTrivial(src, fmt.Sprintf("[%s must reject: %s] %q", v, strings.Join(used, ", "), src))
+	})
+}
+
 // TestFlexibleHeredoc: a heredoc terminated only by a flexible (indented or
 // not newline-followed) closing label parses to the expected tree under 7.3
 // and 7.4 and is rejected under every earlier version.
